@@ -5,6 +5,7 @@ import importlib
 REGISTRY = {
     'C08': ('sim.machines.edit_grid', 'GridMachine', 64, 8000, 150000),
     'C09': ('sim.machines.edit_grid', 'GridPhysicsMachine', 64, 6000, 100000),
+    'C10': ('sim.machines.edit_geo', 'GeoMachine', 64, 5000, 60000),
     'C13': ('sim.machines.store_incon', 'InconMachine', 128, 12000, 200000),
 }
 
